@@ -13,7 +13,7 @@ declare -A CH=(
 )
 for k in $(echo "${!CH[@]}" | tr ' ' '\n' | sort); do
   p=${k%-*}; w=${k#*-}
-  [ -f /tmp/seed/$p/_out/$w.patch.diff ] || continue
+  [ -f /verif/seeded/$k/patch.diff ] || continue
   timeout 5400 python3 /verif/tools_seed_eval.py $p $w --skip-confirm --checks ${CH[$k]} --tier $tier > /tmp/seedmatrix_$k.log 2>&1
 done
 echo MATRIX-DONE > /tmp/seedmatrix_done
